@@ -97,6 +97,11 @@ func c14Frames() *poolFrames {
 	alt := richPacket(1, true)
 	alt.ProtoName, alt.ProtoVer = []byte("MQx"), 4
 	alt.ClientID = []byte("zz")
+	if alt.Will != nil {
+		// another will message too (a decoder that reuses the will it finds
+		// in the destination writes into whoever else holds that will)
+		alt.Will.Topic, alt.Will.Payload = []byte("other/will"), []byte("another will payload")
+	}
 	add(mustEncode(alt, spec.Form{}))
 	altp := minimalPacket(3)
 	altp.Topic, altp.Payload = []byte("q"), []byte("Z")
@@ -117,6 +122,11 @@ func c14Frames() *poolFrames {
 	alts.Props = []spec.Prop{{ID: 0x0b, N: 200}}
 	alts.Filters = []spec.Filter{{Topic: []byte("other/+"), Opts: 2}}
 	add(mustEncode(alts, spec.Form{}))
+	alts2 := minimalPacket(8)
+	alts2.PacketID = 77
+	alts2.Props = []spec.Prop{{ID: 0x0b, N: 5}}
+	alts2.Filters = []spec.Filter{{Topic: []byte("small/id"), Opts: 1}}
+	add(mustEncode(alts2, spec.Form{}))
 	altc := minimalPacket(2)
 	altc.Reason = 0x10
 	altc.Props = []spec.Prop{{ID: 0x21, N: 4660}, {ID: 0x11, N: 70000}, {ID: 0x12, B: []byte("other-id")}, {ID: 0x13, N: 77}}
